@@ -5,9 +5,16 @@
 // GetOrHeadHandler on a real storage.Store in a temp dir: real
 // needle.CreateNeedleFromRequest / ParseUpload, real needle storage, real read
 // handler with its range processing), then a raw GET (Accept-Encoding: gzip, body
-// as sent) and the real util.ReadUrlAsStream, full and ranged, under recover.
+// as sent) and the three real readers of util/http_util.go, each full and ranged,
+// under recover: ReadUrlAsStream (result, bytes handed to fn, retryable; also with
+// the isContentGzipped argument negated and with a full-chunk fetch at an arbitrary
+// (offset, size)), ReadUrl (into a buffer shorter / equal / longer than the data)
+// and ReadUrlAsReaderCloser + ReadAll.
 // CD cases: a malformed stream into util.DecompressData / MaybeDecompressData
 // under recover.
+//
+// Variants: "" small uploads; "big" uploads around the 16 KiB probe threshold;
+// "decompress" CD cases only.
 //
 // The oracle tables of a case (gzip, gunzip, DetectContentType, AES-GCM seal/open)
 // are filled by calling the Go standard library directly.
@@ -25,6 +32,7 @@ import (
 	"net/http"
 	"net/http/httptest"
 	"os"
+	"path/filepath"
 	"strings"
 
 	"github.com/chrislusf/seaweedfs/weed/operation"
@@ -140,27 +148,72 @@ func (f fres) coq() string {
 	return "FPanic"
 }
 
-func fetch(url string, key []byte, gz, full bool, off int64, size int) (f fres) {
+
+// ---- the three readers, under recover ----
+
+type streamRes struct {
+	f      fres
+	handed []byte
+	retry  bool
+}
+
+func fetchStream(url string, key []byte, gz, full bool, off int64, size int) (s streamRes) {
+	var buf bytes.Buffer
+	defer func() {
+		if r := recover(); r != nil {
+			s = streamRes{f: fres{kind: 2}, handed: buf.Bytes()}
+		}
+	}()
+	retry, err := util.ReadUrlAsStream(url, key, gz, full, off, size, func(d []byte) { buf.Write(d) })
+	if err != nil {
+		return streamRes{f: fres{kind: 1}, handed: buf.Bytes(), retry: retry}
+	}
+	return streamRes{f: fres{kind: 0, b: buf.Bytes()}, handed: buf.Bytes(), retry: retry}
+}
+
+func fetchUrl(url string, key []byte, gz, full bool, off int64, size int, buflen int) (f fres) {
 	defer func() {
 		if r := recover(); r != nil {
 			f = fres{kind: 2}
 		}
 	}()
-	var buf bytes.Buffer
-	_, err := util.ReadUrlAsStream(url, key, gz, full, off, size, func(d []byte) { buf.Write(d) })
+	buf := make([]byte, buflen)
+	n, err := util.ReadUrl(url, key, gz, full, off, size, buf)
 	if err != nil {
 		return fres{kind: 1}
 	}
-	return fres{kind: 0, b: buf.Bytes()}
+	return fres{kind: 0, b: buf[:n]}
+}
+
+func fetchCloser(url string, rangeHeader string) (f fres) {
+	defer func() {
+		if r := recover(); r != nil {
+			f = fres{kind: 2}
+		}
+	}()
+	rc, err := util.ReadUrlAsReaderCloser(url, rangeHeader)
+	if err != nil {
+		return fres{kind: 1}
+	}
+	defer rc.Close()
+	b, err := ioutil.ReadAll(rc)
+	if err != nil {
+		return fres{kind: 1}
+	}
+	return fres{kind: 0, b: b}
 }
 
 // ---- generators ----
 
-var names = []string{"a.txt", "b.jpg", "c.zip", "d.pdf", "e.wav", ".txt", ".svg", ".zip", ".jpg", ".wav", ".go", ".json",
-	"dir/.txt", "dir/.png", "", "noext", "x.bin", "up/"}
-var mimes = []string{"", "", "", "text/plain", "text/html; charset=utf-8", "image/png", "image/svg+xml", "application/json",
-	"application/xml", "application/zstd", "application/javascript", "application/vnd.rar", "audio/wav", "audio/x-wav",
-	"audio/mpeg", "application/octet-stream", "video/mp4", "application/x-foo"}
+// every extension of IsCompressableFileType as a base name (doUploadData passes
+// filepath.Base(filename) as `ext`), ordinary names, names with a directory, empty
+var extNames = []string{".svg", ".bmp", ".wav", ".zip", ".rar", ".gz", ".bz2", ".xz", ".zst", ".br", ".pdf", ".txt", ".html",
+	".htm", ".css", ".js", ".json", ".php", ".java", ".go", ".rb", ".c", ".cpp", ".h", ".hpp", ".png", ".jpg", ".jpeg"}
+var plainNames = []string{"a.txt", "b.jpg", "c.zip", "d.pdf", "e.wav", "dir/.txt", "dir/.png", "dir/.gz", "", "noext", "x.bin", "up/", ".SVG", "..c"}
+var unsureNames = []string{"", "noext", "x.bin", "up/"}
+var mimes = []string{"", "", "", "", "text/plain", "text/html; charset=utf-8", "text/css", "image/png", "image/jpeg", "image/svg+xml",
+	"application/json", "application/xml", "application/zstd", "application/javascript", "application/vnd.rar", "audio/wav",
+	"audio/x-wav", "audio/wave", "audio/x-pn-wav", "audio/mpeg", "audio/", "application/octet-stream", "video/mp4", "application/x-foo"}
 
 var words = []string{"hello ", "world ", "seaweed ", "fs ", "volume ", "needle ", "\n", "0123456789 "}
 
@@ -172,31 +225,47 @@ func genText(r *hx.Rng, n int) []byte {
 	return []byte(sb.String()[:n])
 }
 
-// data kinds: text, random, gzip-looking junk, real gzip, empty, big periodic, big with random head
+// small data kinds: text, random, gzip-looking junk, real gzip, damaged gzip, empty, one byte
 func genData(r *hx.Rng) ([]byte, string) {
 	switch k := r.Intn(20); {
 	case k < 6:
 		return genText(r, r.Range(1, 160)), "text"
-	case k < 10:
+	case k < 9:
 		return r.Bytes(r.Range(1, 120)), "random"
-	case k < 13:
+	case k < 11:
 		return append([]byte{0x1f, 0x8b}, r.Bytes(r.Range(0, 40))...), "gzip-looking"
-	case k < 15:
+	case k < 12:
+		return append([]byte{0x1f, 0x8b, 8}, r.Bytes(r.Range(0, 40))...), "gzip-looking-deflate"
+	case k < 14:
 		return stdGzip(genText(r, r.Range(0, 80))), "real-gzip"
 	case k < 17:
-		return []byte{}, "empty"
-	case k < 18:
-		return r.Bytes(1), "one-byte"
+		b, kind := genMalformed(r)
+		return b, "damaged-gzip:" + kind
 	case k < 19:
-		return bytes.Repeat([]byte{byte(r.Intn(256)), 1, 2, byte(r.Intn(256))}, r.Range(4090, 4200)), "big-periodic" // around 16*1024
+		return []byte{}, "empty"
 	default:
-		return append(r.Bytes(128), bytes.Repeat([]byte{7, byte(r.Intn(256))}, r.Range(8120, 8300))...), "big-random-head"
+		return r.Bytes(1), "one-byte"
 	}
+}
+
+// about 16 KiB: 4-periodic (compressible probe) or with a random 128-byte head
+// (incompressible probe), lengths on both sides of 16*1024 and exactly at it
+func genBig(r *hx.Rng) ([]byte, string) {
+	n := r.Range(16360, 16800)
+	if r.Chance(1, 3) {
+		n = 16383 + r.Intn(4)
+	}
+	if r.Chance(1, 2) {
+		b := bytes.Repeat([]byte{byte(r.Intn(256)), 1, 2, byte(r.Intn(256))}, n/4+1)
+		return b[:n], "big-periodic"
+	}
+	b := append(r.Bytes(128), bytes.Repeat([]byte{7, byte(r.Intn(256))}, n/2)...)
+	return b[:n], "big-random-head"
 }
 
 func genMalformed(r *hx.Rng) ([]byte, string) {
 	good := stdGzip(genText(r, r.Range(0, 60)))
-	switch r.Intn(12) {
+	switch r.Intn(14) {
 	case 0:
 		return []byte{0x1f, 0x8b}, "magic-only"
 	case 1:
@@ -225,19 +294,56 @@ func genMalformed(r *hx.Rng) ([]byte, string) {
 		return r.Bytes(r.Range(0, 20)), "random"
 	case 10:
 		b := append([]byte{}, good...)
-		if len(b) > 14 {
+		if len(b) > 20 {
 			b[r.Range(10, len(b)-9)] ^= byte(r.Range(1, 255)) // deflate stream
 		}
 		return b, "bad-deflate"
+	case 11:
+		// a header with FEXTRA/FNAME/FCOMMENT/FHCRC fields, cut somewhere
+		var buf bytes.Buffer
+		w, _ := gzip.NewWriterLevel(&buf, flate.BestSpeed)
+		w.Name, w.Comment, w.Extra = "n"+string(genText(r, 3)), "c", r.Bytes(r.Intn(6))
+		w.Write(genText(r, r.Range(0, 30)))
+		w.Close()
+		b := buf.Bytes()
+		if r.Chance(1, 2) {
+			b = b[:r.Range(3, len(b))]
+		}
+		return b, "header-fields"
+	case 12:
+		return append([]byte{0x1f, 0x8b, 8, byte(r.Intn(32))}, r.Bytes(r.Range(0, 24))...), "magic+deflate+random"
 	default:
 		return []byte{0x1f}, "one-byte"
 	}
 }
 
+type upSpec struct {
+	data             []byte
+	dkind            string
+	name, mime       string
+	ciph, ic         bool
+	off, size, bufln int // -1: choose from the seed
+}
+
 func main() {
 	out := hx.Flags("C33", 100)
-	out.Rule = "3/4 CU cases: data (text / random / 1f8b-prefixed junk / real gzip / empty / 1 byte / about 16 KiB (both sides of the 16*1024 probe threshold) periodic with or without a random 128-byte head) x file name (extensions of every IsCompressableFileType branch, names that ARE an extension, with directory, empty) x mime (each branch, empty = sniffed) x cipher on/off x isInputCompressed (1/8; always set for real gzip half of the time), uploaded with operation.UploadData to an in-process volume server, read raw and through ReadUrlAsStream full and ranged (ranges in, at and beyond the end, size 0); 1/4 CD cases: malformed gzip streams (magic only, truncated, bad method/flags/trailer/deflate, trailing garbage, two members) into DecompressData/MaybeDecompressData; the first two cases are the witnesses of the two repaired nil-reader defects (isInputCompressed junk with the gzip magic, whose full fetch used to panic in ReadUrlAsStream, and DecompressData({1f 8b})); non-trivial = full fetch returned at least one byte (CU) / input has the gzip magic (CD); distinct = canonical input"
+	out.Rule = "variant \"\": CU cases, data (text / random / 1f8b-prefixed junk / real gzip / damaged gzip (truncated, bad trailer/method/flags/deflate, trailing garbage, two members, header fields) / empty / 1 byte) x file name (every extension of IsCompressableFileType as a base name, ordinary names, with directory, empty) x mime (each branch, empty = sniffed) x cipher on/off x isInputCompressed (1/8; 1/2 for gzip-like data), uploaded with operation.UploadData to an in-process volume server, read raw and through ReadUrlAsStream (full at (0,size) and at a random (offset,size), ranged; with the gzip flag as recorded and negated; bytes handed to fn kept on error), ReadUrl (buffer shorter/equal/longer) and ReadUrlAsReaderCloser (ranges in, at and beyond the end, size 0); variant big: the same around 16 KiB (16383..16386 and 16360..16800, 4-periodic or random 128-byte head, 2/3 with empty mime and a name without a known extension so that the 128-byte probe decides); variant decompress: CD cases, malformed gzip streams into DecompressData/MaybeDecompressData; shard 0 starts with the witnesses (known finding 0: isInputCompressed junk with the gzip magic, plain and encrypted - the plain one is also the witness of the repaired nil gzip reader in http_util.go; DecompressData({1f 8b}); lengths 16384 / 16385); non-trivial = full fetch returned at least one byte (CU) / input has the gzip magic (CD); distinct = canonical input"
 	root := hx.NewRng(out.Seed)
+	shard0 := out.Seed%1000 == 0 // bin/check: shard k of a variant runs with seed*1000+k
+
+	if out.Variant == "decompress" {
+		for i := 0; i < out.N; i++ {
+			r := root.Fork()
+			in, kind := genMalformed(r)
+			if i == 0 && shard0 {
+				in, kind = []byte{0x1f, 0x8b}, "magic-only"
+			}
+			caseDecompress(out, in, kind)
+		}
+		out.Write()
+		return
+	}
+
 	dir, err := ioutil.TempDir("", "c33")
 	hx.Must(err)
 	defer os.RemoveAll(dir)
@@ -259,167 +365,264 @@ func main() {
 	defer srv.Close()
 	rawClient := &http.Client{Transport: &http.Transport{DisableCompression: true}}
 
+	junk := []byte{0x1f, 0x8b, 0, 1, 2, 3, 4, 5, 6, 7, 8, 9}
+	periodic := func(n int) []byte { return bytes.Repeat([]byte{9, 1, 2, 200}, n/4+1)[:n] }
+	var witnesses []upSpec
+	if shard0 && out.Variant == "" {
+		trunc := stdGzip([]byte("hello hello hello hello hello"))
+		witnesses = []upSpec{
+			{data: junk, dkind: "gzip-looking", name: "junk", ic: true, off: 0, size: 5, bufln: 12},
+			{data: junk, dkind: "gzip-looking", name: "junk", ic: true, ciph: true, off: 0, size: 5, bufln: 12},
+			{data: trunc[:len(trunc)-10], dkind: "damaged-gzip:truncated", name: "t.gz", ic: true, off: 2, size: 5, bufln: 4},
+			{data: trunc[:len(trunc)-10], dkind: "damaged-gzip:truncated", name: "t.gz", ic: true, ciph: true, off: 2, size: 5, bufln: 40},
+		}
+	}
+	if shard0 && out.Variant == "big" {
+		witnesses = []upSpec{
+			{data: periodic(16384), dkind: "big-periodic", name: "noext", off: 16380, size: 4, bufln: 4},
+			{data: periodic(16385), dkind: "big-periodic", name: "noext", off: 16380, size: 5, bufln: 9},
+			{data: append(hx.NewRng(5).Bytes(128), periodic(16385-128)...), dkind: "big-random-head", name: "", off: 100, size: 60, bufln: 60},
+			{data: periodic(16390), dkind: "big-periodic", name: "x.bin", ic: true, off: 1, size: 16384, bufln: 3},
+		}
+	}
+
 	for i := 0; i < out.N; i++ {
 		r := root.Fork()
-		isCD := i == 1 || (i > 1 && r.Chance(1, 4))
-		if isCD {
-			in, kind := genMalformed(r)
-			if i == 1 {
-				in, kind = []byte{0x1f, 0x8b}, "magic-only"
-			}
-			dec, may := "DPanic", "MPanic"
-			func() {
-				defer func() { recover() }()
-				o, e := util.DecompressData(in)
-				if e == nil {
-					dec = "(DOk " + coqB(o) + ")"
-				} else {
-					dec = fmt.Sprintf("(DErr %s %s)", coqB(o), hx.Bool(e == util.UnsupportedCompression))
+		var sp upSpec
+		if i < len(witnesses) {
+			sp = witnesses[i]
+		} else {
+			sp = upSpec{off: -1}
+			if out.Variant == "big" {
+				sp.data, sp.dkind = genBig(r)
+				sp.name, sp.mime = r.PickStr(plainNames), r.PickStr(mimes)
+				if r.Chance(2, 3) { // let the 128-byte probe decide
+					sp.name, sp.mime = r.PickStr(unsureNames), ""
 				}
-			}()
-			func() {
-				defer func() { recover() }()
-				may = "(MVal " + coqB(util.MaybeDecompressData(in)) + ")"
-			}()
-			term := fmt.Sprintf("(CD {| dc_input := %s; dc_gunzip := %s; di_decompress := %s; di_maybe := %s |})",
-				coqB(in), stdGunzip(in).coq(), dec, may)
-			out.Add(term, "D:"+hex.EncodeToString(in), util.IsGzippedContent(in), "decompress")
-			out.Count("malformed:"+kind, 1)
-			if dec == "DPanic" || may == "MPanic" {
-				out.Count("decompress:panic", 1)
-			}
-			continue
-		}
-		data, dkind := genData(r)
-		name, mime := r.PickStr(names), r.PickStr(mimes)
-		ciph := r.Chance(1, 3)
-		ic := r.Chance(1, 8)
-		if dkind == "real-gzip" {
-			ic = r.Chance(1, 2)
-		}
-		if len(data) > 1000 {
-			ciph = false // the sealed bytes of a large input have no short Coq term
-		}
-		if i == 0 { // witness of the repaired http_util.go nil gzip reader: must be an error now, not a panic
-			data, dkind, name, mime, ciph, ic = []byte{0x1f, 0x8b, 0, 1, 2, 3, 4, 5, 6, 7, 8, 9}, "gzip-looking", "junk", "", false, true
-		}
-		url := fmt.Sprintf("%s/3,%x%08x", srv.URL, i+1, uint32(r.Next()))
-		var res *operation.UploadResult
-		upPanic := false
-		func() {
-			defer func() {
-				if rec := recover(); rec != nil {
-					upPanic = true
+				sp.ciph = false // the sealed bytes of a large input have no short Coq term (a 32 KiB string literal overflows coqc's stack)
+				sp.ic = r.Chance(1, 8)
+			} else {
+				sp.data, sp.dkind = genData(r)
+				sp.name = r.PickStr(plainNames)
+				if r.Chance(1, 2) {
+					sp.name = r.PickStr(extNames)
 				}
-			}()
-			res, err = operation.UploadData(url, name, ciph, data, ic, mime, nil, "")
-		}()
-		if upPanic || err != nil || res == nil {
-			panic(fmt.Sprintf("upload failed: panic=%v err=%v (the model has no such outcome)", upPanic, err))
+				sp.mime = r.PickStr(mimes)
+				sp.ciph = r.Chance(1, 3)
+				sp.ic = r.Chance(1, 8)
+				if util.IsGzippedContent(sp.data) {
+					sp.ic = r.Chance(1, 2)
+				}
+			}
 		}
-		// raw GET: what the server sends to a client that accepts gzip
-		req, _ := http.NewRequest("GET", url, nil)
-		req.Header.Set("Accept-Encoding", "gzip")
-		resp, err := rawClient.Do(req)
-		hx.Must(err)
-		raw, err := ioutil.ReadAll(resp.Body)
-		hx.Must(err)
-		resp.Body.Close()
-		rawCE := resp.Header.Get("Content-Encoding") == "gzip"
+		caseUpload(out, r, srv.URL, rawClient, i, sp)
+	}
+	out.Write()
+}
 
-		// oracle tables
-		var tGzip, tGunzip, tDetect, tSeal, tOpen []string
-		cands := [][]byte{}
-		if ic {
-			cands = append(cands, data)
+func caseDecompress(out *hx.Out, in []byte, kind string) {
+	dec, may := "DPanic", "MPanic"
+	func() {
+		defer func() { recover() }()
+		o, e := util.DecompressData(in)
+		if e == nil {
+			dec = "(DOk " + coqB(o) + ")"
+		} else {
+			dec = fmt.Sprintf("(DErr %s %s)", coqB(o), hx.Bool(e == util.UnsupportedCompression))
 		}
-		if !ic && mime == "" {
-			tDetect = append(tDetect, hx.Pair(coqB(data), hx.Str(http.DetectContentType(data))))
-		}
-		if !ic {
-			if !ciph {
-				g := stdGzip(data)
-				tGzip = append(tGzip, hx.Pair(coqB(data), coqB(g)))
-				cands = append(cands, g)
+	}()
+	func() {
+		defer func() { recover() }()
+		may = "(MVal " + coqB(util.MaybeDecompressData(in)) + ")"
+	}()
+	g := stdGunzip(in)
+	term := fmt.Sprintf("(CD {| dc_input := %s; dc_gunzip := %s; di_decompress := %s; di_maybe := %s |})",
+		coqB(in), g.coq(), dec, may)
+	out.Add(term, "D:"+hex.EncodeToString(in), util.IsGzippedContent(in), "decompress")
+	out.Count("malformed:"+kind, 1)
+	if util.IsGzippedContent(in) {
+		out.Count(fmt.Sprintf("gunzip-outcome:%d", g.kind), 1)
+	}
+	if dec == "DPanic" || may == "MPanic" {
+		out.Count("decompress:panic", 1)
+	}
+}
+
+func caseUpload(out *hx.Out, r *hx.Rng, base string, rawClient *http.Client, i int, sp upSpec) {
+	data, name, mime, ciph, ic := sp.data, sp.name, sp.mime, sp.ciph, sp.ic
+	url := fmt.Sprintf("%s/3,%x%08x", base, i+1, uint32(r.Next()))
+	var res *operation.UploadResult
+	var err error
+	upPanic := false
+	func() {
+		defer func() {
+			if rec := recover(); rec != nil {
+				upPanic = true
 			}
-			if len(data) > 16*1024 {
-				tGzip = append(tGzip, hx.Pair(coqB(data[:128]), coqB(stdGzip(data[:128]))))
-			}
+		}()
+		res, err = operation.UploadData(url, name, ciph, data, ic, mime, nil, "")
+	}()
+	if upPanic || err != nil || res == nil {
+		panic(fmt.Sprintf("upload failed: panic=%v err=%v (the model has no such outcome)", upPanic, err))
+	}
+	// raw GET: what the server sends to a client that accepts gzip
+	req, _ := http.NewRequest("GET", url, nil)
+	req.Header.Set("Accept-Encoding", "gzip")
+	resp, err := rawClient.Do(req)
+	hx.Must(err)
+	raw, err := ioutil.ReadAll(resp.Body)
+	hx.Must(err)
+	resp.Body.Close()
+	rawCE := resp.Header.Get("Content-Encoding") == "gzip"
+
+	// oracle tables: the standard library on every byte string the model can ask about
+	var tGzip, tGunzip, tDetect, tSeal, tOpen []string
+	if !ic && mime == "" {
+		tDetect = append(tDetect, hx.Pair(coqB(data), hx.Str(http.DetectContentType(data))))
+	}
+	gunzipCands := [][]byte{data}
+	if !ic {
+		if !ciph {
+			g := stdGzip(data)
+			tGzip = append(tGzip, hx.Pair(coqB(data), coqB(g)))
+			gunzipCands = append(gunzipCands, g)
 		}
-		for _, c := range cands {
-			if util.IsGzippedContent(c) {
-				tGunzip = append(tGunzip, hx.Pair(coqB(c), stdGunzip(c).coq()))
-			}
+		if len(data) > 16*1024 {
+			tGzip = append(tGzip, hx.Pair(coqB(data[:128]), coqB(stdGzip(data[:128]))))
 		}
-		key, nonce := []byte{}, []byte{}
-		if len(res.CipherKey) > 0 {
-			key = res.CipherKey
-			if len(raw) >= 12 {
-				nonce = raw[:12]
-				g := gcmOf(key)
-				clears := [][]byte{data}
-				if ic && util.IsGzippedContent(data) {
-					clears = append(clears, stdGunzip(data).out) // nil on a header error, partial on a body error
-				}
-				for _, c := range clears {
-					tSeal = append(tSeal, hx.Pair(fmt.Sprintf("(%s, %s, %s)", coqB(key), coqB(nonce), coqB(c)), coqB(g.Seal(nil, nonce, c, nil))))
-				}
-				opened := "None"
-				if p, oerr := g.Open(nil, nonce, raw[12:], nil); oerr == nil {
-					opened = hx.Some(coqB(p))
-				}
-				tOpen = append(tOpen, hx.Pair(fmt.Sprintf("(%s, %s, %s)", coqB(key), coqB(nonce), coqB(raw[12:])), opened))
-			}
+	}
+	if util.IsGzippedContent(data) {
+		gunzipCands = append(gunzipCands, stdGunzip(data).out) // what an encrypted upload seals when ic is set
+	}
+	seen := map[string]bool{}
+	for _, c := range gunzipCands {
+		if util.IsGzippedContent(c) && !seen[string(c)] {
+			seen[string(c)] = true
+			tGunzip = append(tGunzip, hx.Pair(coqB(c), stdGunzip(c).coq()))
 		}
-		// fetches
-		full := fetch(url, res.CipherKey, res.Gzip > 0, true, 0, int(res.Size))
-		clearLen := int(res.Size)
-		var off int64
-		var size int
+	}
+	key, nonce := []byte{}, []byte{}
+	if len(res.CipherKey) > 0 {
+		key = res.CipherKey
+		if len(raw) >= 12 {
+			nonce = raw[:12]
+			g := gcmOf(key)
+			clears := [][]byte{data}
+			if ic && util.IsGzippedContent(data) {
+				clears = append(clears, stdGunzip(data).out) // nil on a header error, partial on a body error
+			}
+			for _, c := range clears {
+				tSeal = append(tSeal, hx.Pair(fmt.Sprintf("(%s, %s, %s)", coqB(key), coqB(nonce), coqB(c)), coqB(g.Seal(nil, nonce, c, nil))))
+			}
+			opened := "None"
+			if p, oerr := g.Open(nil, nonce, raw[12:], nil); oerr == nil {
+				opened = hx.Some(coqB(p))
+			}
+			tOpen = append(tOpen, hx.Pair(fmt.Sprintf("(%s, %s, %s)", coqB(key), coqB(nonce), coqB(raw[12:])), opened))
+		}
+	}
+
+	// the request
+	clearLen := int(res.Size)
+	off, size, bufLen := sp.off, sp.size, sp.bufln
+	if off < 0 {
 		switch k := r.Intn(10); {
 		case k < 5 && clearLen > 0:
-			off = int64(r.Intn(clearLen))
-			size = r.Range(1, clearLen-int(off))
+			off = r.Intn(clearLen)
+			size = r.Range(1, clearLen-off)
 		case k < 6:
-			off, size = int64(r.Intn(clearLen+1)), 0
+			off, size = r.Intn(clearLen+1), 0
 		case k < 7:
-			off, size = int64(clearLen), r.Range(1, 5)
+			off, size = clearLen, r.Range(1, 5)
 		case k < 8:
-			off, size = int64(clearLen+r.Range(1, 3)), r.Range(1, 5)
+			off, size = clearLen+r.Range(1, 3), r.Range(1, 5)
 		case k < 9 && clearLen > 0:
-			off = int64(r.Intn(clearLen))
-			size = clearLen - int(off) + r.Range(1, 9) // runs past the end
+			off = r.Intn(clearLen)
+			size = clearLen - off + r.Range(1, 9) // runs past the end
 		default:
 			off, size = 0, clearLen
 		}
-		ranged := fetch(url, res.CipherKey, res.Gzip > 0, false, off, size)
-
-		resMime := ""
-		if ciph {
-			resMime = res.Mime
+		ref := size
+		if r.Chance(1, 2) {
+			ref = clearLen
 		}
-		uin := fmt.Sprintf("{| u_name := %s; u_cipher := %s; u_data := %s; u_ic := %s; u_mime := %s; u_key := %s; u_nonce := %s |}",
-			hx.Str(name), hx.Bool(ciph), coqB(data), hx.Bool(ic), hx.Str(mime), coqB(key), coqB(nonce))
-		tab := fmt.Sprintf("{| t_gzip := %s; t_gunzip := %s; t_detect := %s; t_seal := %s; t_open := %s |}",
-			hx.List(tGzip), hx.List(tGunzip), hx.List(tDetect), hx.List(tSeal), hx.List(tOpen))
-		term := fmt.Sprintf("(CU {| uc_in := %s; uc_tab := %s; uc_off := %s; uc_size := %s; ui_size := %s; ui_gzip := %s; ui_has_key := %s; ui_mime := %s; ui_raw_status := %s; ui_raw_ce := %s; ui_raw_body := %s; ui_full := %s; ui_ranged := %s |})",
-			uin, tab, hx.N(uint64(off)), hx.N(uint64(size)), hx.N(uint64(res.Size)), hx.Bool(res.Gzip > 0),
-			hx.Bool(len(res.CipherKey) > 0), hx.Str(resMime), hx.N(uint64(resp.StatusCode)), hx.Bool(rawCE), coqB(raw),
-			full.coq(), ranged.coq())
-		canon := fmt.Sprintf("U:%s|%s|%v|%v|%x|%d+%d", name, mime, ciph, ic, data, off, size)
-		if len(canon) > 400 {
-			canon = canon[:400] + fmt.Sprintf("...%d", len(data))
-		}
-		out.Add(term, canon, full.kind == 0 && len(full.b) > 0, "upload")
-		out.Count("data:"+dkind, 1)
-		out.Count(fmt.Sprintf("cipher:%v", ciph), 1)
-		out.Count(fmt.Sprintf("inputCompressed:%v", ic), 1)
-		out.Count(fmt.Sprintf("result.gzip:%v", res.Gzip > 0), 1)
-		out.Count(fmt.Sprintf("full:%d", full.kind), 1)
-		out.Count(fmt.Sprintf("ranged:%d", ranged.kind), 1)
-		if mime == "" {
-			out.Count("mime:sniffed", 1)
+		switch r.Intn(4) {
+		case 0:
+			bufLen = r.Intn(ref + 1)
+		case 1:
+			bufLen = ref + r.Range(1, 9)
+		default:
+			bufLen = ref
 		}
 	}
-	out.Write()
+	gz := res.Gzip > 0
+	rangeHeader := fmt.Sprintf("bytes=%d-%d", off, off+size-1)
+	full := fetchStream(url, res.CipherKey, gz, true, 0, clearLen)
+	fullAt := fetchStream(url, res.CipherKey, gz, true, int64(off), size)
+	ranged := fetchStream(url, res.CipherKey, gz, false, int64(off), size)
+	flipFullAt := fetchStream(url, res.CipherKey, !gz, true, int64(off), size)
+	flipRanged := fetchStream(url, res.CipherKey, !gz, false, int64(off), size)
+	urlFull := fetchUrl(url, res.CipherKey, gz, true, 0, clearLen, bufLen)
+	urlRanged := fetchUrl(url, res.CipherKey, gz, false, int64(off), size, bufLen)
+	rcFull := fetchCloser(url, "")
+	rcRanged := fetchCloser(url, rangeHeader)
+	retry := full.retry || fullAt.retry || ranged.retry || flipFullAt.retry || flipRanged.retry
+
+	resMime := ""
+	if ciph {
+		resMime = res.Mime
+	}
+	uin := fmt.Sprintf("{| u_name := %s; u_cipher := %s; u_data := %s; u_ic := %s; u_mime := %s; u_key := %s; u_nonce := %s |}",
+		hx.Str(name), hx.Bool(ciph), coqB(data), hx.Bool(ic), hx.Str(mime), coqB(key), coqB(nonce))
+	tab := fmt.Sprintf("{| t_gzip := %s; t_gunzip := %s; t_detect := %s; t_seal := %s; t_open := %s |}",
+		hx.List(tGzip), hx.List(tGunzip), hx.List(tDetect), hx.List(tSeal), hx.List(tOpen))
+	term := fmt.Sprintf("(CU {| uc_in := %s; uc_tab := %s; uc_off := %s; uc_size := %s; uc_buf := %s; ui_size := %s; ui_gzip := %s; ui_has_key := %s; ui_mime := %s; ui_raw_status := %s; ui_raw_ce := %s; ui_raw_body := %s; ui_full := %s; ui_full_at := %s; ui_ranged := %s; ui_handed_full := %s; ui_handed_ranged := %s; ui_retry := %s; ui_flip_full_at := %s; ui_flip_ranged := %s; ui_url_full := %s; ui_url_ranged := %s; ui_rc_full := %s; ui_rc_ranged := %s |})",
+		uin, tab, hx.N(uint64(off)), hx.N(uint64(size)), hx.N(uint64(bufLen)), hx.N(uint64(res.Size)), hx.Bool(gz),
+		hx.Bool(len(res.CipherKey) > 0), hx.Str(resMime), hx.N(uint64(resp.StatusCode)), hx.Bool(rawCE), coqB(raw),
+		full.f.coq(), fullAt.f.coq(), ranged.f.coq(), coqB(full.handed), coqB(ranged.handed), hx.Bool(retry),
+		flipFullAt.f.coq(), flipRanged.f.coq(), urlFull.coq(), urlRanged.coq(), rcFull.coq(), rcRanged.coq())
+	canon := fmt.Sprintf("U:%s|%s|%v|%v|%x|%d+%d|%d", name, mime, ciph, ic, data, off, size, bufLen)
+	if len(canon) > 400 {
+		canon = canon[:400] + fmt.Sprintf("...%d|%d+%d|%d", len(data), off, size, bufLen)
+	}
+	out.Add(term, canon, full.f.kind == 0 && len(full.f.b) > 0, "upload")
+	dk := sp.dkind
+	if j := strings.Index(dk, ":"); j > 0 {
+		out.Count("data:"+dk[:j], 1)
+	}
+	out.Count("data:"+dk, 1)
+	out.Count(fmt.Sprintf("cipher:%v", ciph), 1)
+	out.Count(fmt.Sprintf("inputCompressed:%v", ic), 1)
+	out.Count(fmt.Sprintf("result.gzip:%v", gz), 1)
+	out.Count(fmt.Sprintf("full:%d", full.f.kind), 1)
+	out.Count(fmt.Sprintf("fullAt:%d", fullAt.f.kind), 1)
+	out.Count(fmt.Sprintf("ranged:%d", ranged.f.kind), 1)
+	out.Count(fmt.Sprintf("readUrl.full:%d", urlFull.kind), 1)
+	out.Count(fmt.Sprintf("readCloser.full:%d", rcFull.kind), 1)
+	if ciph {
+		out.Count(fmt.Sprintf("cipher.flipGzipFlag.full:%d", flipFullAt.f.kind), 1)
+	}
+	if len(full.handed) > 0 && full.f.kind == 1 {
+		out.Count("handed-bytes-before-error", 1)
+	}
+	if ic && util.IsGzippedContent(data) {
+		out.Count(fmt.Sprintf("ic+magic:gunzip-outcome:%d", stdGunzip(data).kind), 1)
+	}
+	if !ic && mime == "" {
+		out.Count("mime:sniffed", 1)
+		if len(data) > 16*1024 && http.DetectContentType(data) == "application/octet-stream" {
+			if sure := knownExt(name); !sure {
+				out.Count(fmt.Sprintf("probe128:reached(gzip=%v)", gz), 1)
+			}
+		}
+	}
+	if len(data) == 16384 || len(data) == 16385 {
+		out.Count(fmt.Sprintf("len:%d", len(data)), 1)
+	}
+}
+
+// knownExt: does IsCompressableFileType decide on the base name alone (mime "")?
+func knownExt(name string) bool {
+	_, sure := util.IsCompressableFileType(filepath.Base(name), "")
+	return sure
 }
